@@ -43,14 +43,15 @@ type mxSpec struct {
 }
 
 type rmsg struct {
-	id          string
-	from        string
-	rcpts       []string
-	utf8        bool
-	requireTLS  bool
-	tlsOverride bool
-	quarantine  bool
-	gap         time.Duration
+	id             string
+	from           string
+	rcpts          []string
+	utf8           bool
+	requireTLS     bool
+	tlsOverride    bool
+	quarantine     bool
+	quarantineLate bool // flag set between the recipient and the body stage
+	gap            time.Duration
 	// results
 	startErr error
 	rcptErr  map[string]error
@@ -186,6 +187,10 @@ func (w *world) gen() {
 			m.tlsOverride = true
 		case 2:
 			m.quarantine = true
+		case 3:
+			// a body-stage check or the DMARC policy quarantines: the flag
+			// appears after the recipients were accepted
+			m.quarantineLate = true
 		}
 		m.gap = []time.Duration{0, 0, 30 * time.Second, 200 * time.Second}[s.T.Choose(st, 4)]
 		m.utf8 = true
@@ -403,6 +408,10 @@ func (w *world) deliver(i int, m *rmsg) {
 		d.Abort(ctx)
 		return
 	}
+	if m.quarantineLate {
+		meta.Quarantine = true
+		s.Logf("driver: %s quarantined at the body stage", m.id)
+	}
 	h := textproto.Header{}
 	h.Add("Subject", "rm "+m.id)
 	h.Add("X-Sim-Msg", m.id)
@@ -549,7 +558,7 @@ func (w *world) shape() string {
 		fmt.Fprintf(&sb, "[%s down=%v tls=%v/%v cert=%v rtls=%v tlsa=%s]", m.host, m.down, p.StartTLS, p.TLSFails, p.Cert, p.RequireTLS, m.tlsa)
 	}
 	for _, m := range w.msgs {
-		fmt.Fprintf(&sb, "{%s r=%d rt=%v ov=%v q=%v gap=%v}", m.id, len(m.rcpts), m.requireTLS, m.tlsOverride, m.quarantine, m.gap)
+		fmt.Fprintf(&sb, "{%s r=%d rt=%v ov=%v q=%v/%v gap=%v}", m.id, len(m.rcpts), m.requireTLS, m.tlsOverride, m.quarantine, m.quarantineLate, m.gap)
 	}
 	return sb.String()
 }
@@ -599,7 +608,7 @@ func (w *world) oracleC05() {
 			fail := func(req, why string) {
 				s.Violate("C05/policy-unsatisfied/"+req+"/"+reuse, "message %s (requiretls=%v tls-required-no=%v) was transmitted to %s over connection #%d (transaction %d on it, TLS=%v, certificate %v, TLSA %s, DNSSEC trusted=%v): %s", m.id, m.requireTLS, m.tlsOverride, mx.host, tx.ConnID, tx.ConnTxN, tx.TLS, tx.Cert, mx.tlsa, adTrusted, why)
 			}
-			if m.quarantine {
+			if m.quarantine || m.quarantineLate {
 				fail("quarantine", "quarantined messages must never be relayed")
 				continue
 			}
